@@ -1468,6 +1468,13 @@ def case_bw_sequential(ctx, idx, rng):
                     if held[0] is not None and bw.bufferedcount == 0:
                         hs = held[0]
                         held[0] = None
+                        # its generation is older than the flush: it must not pass for up to date
+                        ctx.count("c18.bw.held_searcher_up_to_date_checks")
+                        if hs.up_to_date():
+                            ctx.fail("c18.bw.view", "held-searcher-up-to-date-after-flush:%s" % step[0], dict(w, step=(step[0], n)),
+                                     "up_to_date() is True for a searcher taken before the flush (latest generation %r)"
+                                     % (bw.index.latest_generation(),))
+                            return False
                         rs = hs.refresh()
                         try:
                             ctx.count("c18.bw.held_searcher_refreshed_after_flush")
